@@ -66,7 +66,11 @@ let all_assign_idx (s : nat list) : nat list list =
   let n = List.fold_left ( * ) 1 sp in
   List.init n (fun i -> let r = ref i in List.map (fun d -> let x = !r mod d in r := !r / d; nat_of_int x) sp)
 
-let judge _id (c : cursor) (r : cursor) : bool * string =
+exception Solver_gave_up of string
+
+let rec judge _id (c : cursor) (r : cursor) : bool * string =
+  try judge_case c r with Solver_gave_up tag -> (false, tag)
+and judge_case (c : cursor) (r : cursor) : bool * string =
   let kind = next c in
   match kind with
   | "flp" ->
@@ -77,14 +81,21 @@ let judge _id (c : cursor) (r : cursor) : bool * string =
     let bb = read_fv c in
     let ok = next_int r <> 0 in
     let w = next_qs r in
-    let (rrows, _res, ncols, sol) = read_recorder r in
+    let (rrows, res, ncols, sol) = read_recorder r in
     expect r "FLAT";
     let fok = next_int r <> 0 in
     let fobj = next_q r in
     let fw = next_qs r in
     let nw = int_of_nat (nweights cb ac) in
     (* ---- O: the returned weights minimise the max-norm error (flat LP optimum) ---- *)
-    if not ok then oracle_fail "factored_projection_eq_flat" site "no solution returned although the flat LP is always feasible and bounded";
+    if not ok && (res = 2 || res = 3) then oracle_fail "factored_projection_eq_flat" site "LP reported infeasible/unbounded although the flat LP is always feasible and bounded";
+    if not ok then begin
+      (* solver gave up (NUMFAILURE / ACCURACYERROR ...): only the constraint system is compared *)
+      let order = flp_order s cb bb ac in
+      let (mrows, _) = flp_system s cb bb ac order in
+      compare_rows site mrows rrows;
+      raise (Solver_gave_up (if ac then "flp-const-solver-gave-up" else "flp-solver-gave-up"))
+    end;
     if List.length w <> nw then oracle_fail "factored_projection_eq_flat" site "wrong number of weights returned";
     if not fok then disagree "flat_reference" "LP::solve" "flat LP not solved";
     let e_fact = flat_maxerr s cb bb ac w in
@@ -141,7 +152,7 @@ let judge _id (c : cursor) (r : cursor) : bool * string =
     let solved = next_int r <> 0 in
     let w = next_qs r in
     let qv = next_qs r in
-    let (rrows, _res, ncols, sol) = read_recorder r in
+    let (rrows, res, ncols, sol) = read_recorder r in
     expect r "G";
     let g = next_list r read_bm in
     expect r "MDP";
@@ -157,15 +168,27 @@ let judge _id (c : cursor) (r : cursor) : bool * string =
     let ((mrows, mn), nfin) = mlp_system s a h g rw gam order in
     let ((orows, _), _) = mlp_system_orig s a h g rw gam order in
     let nfin = int_of_nat nfin in
-    let clause = if nfin >= 2 then "mdp_lp_eq_flat_multi_component" else "mdp_lp_eq_flat" in
+    (* which modelled form of makeResult do the recorded rows have?  (decided before O so that the
+       known defect — one row per final factor, >= 2 final factors — gets its own clause and every
+       other violation keeps the plain one; a mismatch is raised after the O checks) *)
+    let rows_form =
+      (try compare_rows site mrows rrows; `Repaired
+       with Disagreement _ as e -> (try compare_rows site orows rrows; `Orig with Disagreement _ -> `Mismatch e)) in
+    let orig_form = (rows_form = `Orig) in
+    let clause = if nfin >= 2 && orig_form then "mdp_lp_eq_flat_multi_component" else "mdp_lp_eq_flat" in
     let states = Array.of_list (all_assign_idx s) in
     if Array.length states <> ns then failwith "state count";
     let hval kk st = entry s (List.nth h kk) states.(st) in
     let mean kk = let t = ref q_zero in for st = 0 to ns - 1 do t := q_add !t (hval kk st) done; vio_qdiv !t (q_of_int ns) in
     (* ---- O ---- *)
     if fok then begin
-      if not solved then oracle_fail clause site
-          (Printf.sprintf "the factored LP has no solution although the flat LP over all (s,a) has optimum %s" (string_of_q fobj));
+      (* lp_solve result codes: 2 = INFEASIBLE, 3 = UNBOUNDED are statements about the system;
+         anything else (5 NUMFAILURE, 25 ACCURACYERROR, ...) is the solver giving up: outside the
+         property (trusted base); the system itself is still compared row by row below *)
+      if not solved && (res = 2 || res = 3) then oracle_fail clause site
+          (Printf.sprintf "the factored LP is reported %s although the flat LP over all (s,a) has optimum %s"
+             (if res = 2 then "infeasible" else "unbounded") (string_of_q fobj));
+      if solved then begin
       if List.length w <> k then oracle_fail clause site "wrong number of weights";
       let wa = Array.of_list w in
       let v = Array.init ns (fun st -> let t = ref q_zero in for kk = 0 to k - 1 do t := q_add !t (q_mul wa.(kk) (hval kk st)) done; vio_qred !t) in
@@ -190,16 +213,14 @@ let judge _id (c : cursor) (r : cursor) : bool * string =
           oracle_fail "q_is_backup" "LinearProgramming::operator()"
             (Printf.sprintf "Q(%d,%d) = %s but R + gamma P V_w = %s" st ac (string_of_q qa.(st * na + ac)) (string_of_q (backup st ac)))
       done done
+      end
     end;
     (* ---- C ---- *)
     if List.sort compare (il order) <> List.init (List.length s + List.length a) (fun i -> i) then
       disagree "order_ok" "FactorGraph::bestVariableToRemove" ("modelled order is not a permutation: " ^ str_nats order);
-    let orig_form =
-      (try compare_rows site mrows rrows; false
-       with Disagreement _ as e ->
-         (* the unrepaired makeResult pushes one row per final factor: accepted as the other
-            modelled form (its effect on the optimum is judged by O above) *)
-         (try compare_rows site orows rrows; true with Disagreement _ -> raise e)) in
+    (* the unrepaired makeResult pushes one row per final factor: accepted as the other modelled
+       form (its effect on the optimum is judged by O above) *)
+    (match rows_form with `Mismatch e -> raise e | _ -> ());
     if int_of_nat mn <> ncols then disagree "constraint_columns" site "number of LP columns differs";
     if solved then begin
       match first_violated tol6 sol (if orig_form then orows else mrows) with
@@ -207,7 +228,8 @@ let judge _id (c : cursor) (r : cursor) : bool * string =
       | None -> ()
     end;
     (fok && solved && (ns_f > 1 || List.length a > 1),
-     (if not fok then "mlp-flat-unsolved" else if nfin >= 2 then "mlp-multi" else "mlp") ^ (if orig_form then "-origrows" else ""))
+     (if not fok then "mlp-flat-unsolved" else if not solved then "mlp-solver-gave-up" else if nfin >= 2 then "mlp-multi" else "mlp")
+     ^ (if orig_form then "-origrows" else ""))
   | k -> failwith ("unknown case kind " ^ k)
 
 let () = main_loop judge
